@@ -212,11 +212,21 @@ def run_unit(unit, st, tier):
             one(dict(s2, lower=[which]), True)
             one(dict(s2, lower=list(range(k + 1))), True)
     # bound 1: annotated participants (features of every unusual but legal shape); bound 2: annotated x rotation of one plasmid
-    one(dict(base, decor=1), True, outcome="product-or-violation/annotated")
-    st.goal("annotated-participants")
-    for which in range(k + 1):
-        for s2 in rotations_of(base, which, goals=False):
-            one(dict(s2, decor=1), True, outcome="product-or-violation/annotated")
+    for decor in range(1, len(gen.ROUTES) + 1):
+        # ... produced along every route (fresh; rotated back by the library; reverse-complemented twice; through GenBank text;
+        # rotated, reverse-complemented, rotated): same plasmids, other internal spellings
+        one(dict(base, decor=decor), True, outcome="product-or-violation/annotated")
+        st.goal("annotated-participants")
+        for which in range(k + 1):
+            if decor > 1 and tier == "quick" and which != 1:
+                continue
+            for s2 in rotations_of(base, which, goals=False):
+                if decor > 1 and tier == "quick":
+                    # the other routes: origin inside the flanking structure, and every fourth rotation elsewhere
+                    r_ = s2["rot"][which]
+                    if r_ % 4 and origin_zone(base, which, r_)[0] not in ("site", "filler", "overhang"):
+                        continue
+                one(dict(s2, decor=decor), True, outcome="product-or-violation/annotated")
     # bound 1: region lengths (and bound 2 with the rotation of the plasmid holding the region)
     for reg in regions(k):
         kind = reg.rstrip("0123456789")
